@@ -23,15 +23,44 @@ def latch_collision(reset):
     return False
 
 
-def gen(prefix, runs, seed, files, small_share=0.25, release=False):
+def gen(prefix, runs, seed, files, small_share=0.25, release=False, dead=None):
+    """dead: a list that receives (graph id, exit status, args) of graphs whose run brings the driver process down
+    (abort on an impossible allocation, stack overflow ...): that is data, the rest of the shard is recorded without them."""
+    import subprocess
+    from concurrent.futures import ThreadPoolExecutor
     paths, stats = [], {}
     per = (runs + files - 1) // files
+    exe = vlib.build_harness(release)
     for i in range(files):
         p = os.path.join(TRACES, "%s_%d.ndjson" % (prefix, i))
-        args = ["renumber", "--out", p, "--seed", seed, "--first", i * per, "--count", per]
-        if i < files * small_share:
-            args.append("--small")
-        out = run_vh(args, release=release)
+        extra = ["--small"] if i < files * small_share else []
+        args = ["renumber", "--out", p, "--seed", seed, "--first", i * per, "--count", per] + extra
+        pr = subprocess.run([exe] + [str(a) for a in args], cwd=vlib.ROOT, stdout=subprocess.PIPE, stderr=subprocess.PIPE, text=True)
+        if pr.returncode != 0 and dead is not None and (pr.returncode < 0 or pr.returncode in (101, 134, 139)):
+            def one(g):
+                tp = p + ".%d" % g
+                r = subprocess.run([exe, "renumber", "--out", tp, "--seed", str(seed), "--first", str(g), "--count", "1"] + extra,
+                                   cwd=vlib.ROOT, stdout=subprocess.PIPE, stderr=subprocess.PIPE, text=True)
+                return g, r.returncode, tp
+            with ThreadPoolExecutor(max_workers=12) as ex:
+                results = list(ex.map(one, range(i * per, (i + 1) * per)))
+            with open(p, "w") as fh:
+                for g, rc, tp in results:
+                    if rc == 0:
+                        with open(tp) as src:
+                            fh.write(src.read())
+                        stats["runs"] = stats.get("runs", 0) + 1
+                    else:
+                        dead.append((g, rc, "vh renumber --seed %s --first %d --count 1 %s" % (seed, g, " ".join(extra))))
+                    if os.path.exists(tp):
+                        os.remove(tp)
+            if not any(rc != 0 for _, rc, _ in results):
+                raise vlib.ToolError("vh renumber died (exit %d) but no single graph reproduces it" % pr.returncode)
+            paths.append(p)
+            continue
+        if pr.returncode != 0:
+            raise vlib.ToolError("vh renumber exited with %d: %s" % (pr.returncode, pr.stderr[-600:]))
+        out = json.loads(pr.stdout.strip().splitlines()[-1])
         for k, v in out.items():
             stats[k] = stats.get(k, 0) + v
         paths.append(p)
